@@ -1,7 +1,7 @@
 """C06 - quantity arithmetic agrees with arithmetic on base-dimension values.
 
 1. TLC enumerates (QuantityAlgGen, Source="enum") every operand pair over the exact-ratio units
-   {none, m, cm, km, s, ms, g, kg, %, m/s, cm2, s-1, rad} x values {-2, 0, 1, 3} x {+ - * /} x both operand orders x a plain
+   {none, m, cm, km, s, ms, g, kg, %, m/s, cm2, s-1, rad} x values {-2, 0, 1, 3} x {+ - * /, np.linspace, np.logspace} x both operand orders x a plain
    number on either side, negation, and power under 30 exponent spellings (int, pair, float, Fraction, np.float64/float32/int64, np.power,
    np.sqrt, np.cbrt); it computes the ideal's expectation (exponent map, dimension, base-dimension value as an
    exact rational and as a term, refusal) and checks the algebraic lemmas on the rational model.
@@ -71,6 +71,10 @@ def perform(op, form, lit, n, a, b):
         return a * b
     if op == "div":
         return a / b
+    if op == "np.linspace":
+        return np.linspace(a, b, 3)
+    if op == "np.logspace":
+        return np.logspace(a, b, 3)
     if op == "neg":
         return -a
     if op == "pow":
@@ -116,6 +120,7 @@ def run_case(case):
         try:
             with np.errstate(all="ignore"):
                 probe = [T.ev(r["base"]) for r in recs] + [T.ev(r["val"]) for r in recs] + [T.ev(r["base"], mag=True) for r in recs]
+                probe += [T.ev(t) for r in recs for t in r.get("seqb", []) + r.get("seqv", [])]
             if any((not np.isfinite(x)) or (x != 0 and not (1e-290 < abs(x) < 1e290)) for x in probe):
                 return ("unspecified", None)
         except (ZeroDivisionError, OverflowError):
@@ -126,7 +131,7 @@ def run_case(case):
         if case.get("bscalar"):
             bvals = bvals[:1]
         b = _operand(r0["b"], r0["side"] == "qn", bvals, style, numkind) \
-            if r0["op"] in ("add", "sub", "mul", "div") else None
+            if r0["op"] in ("add", "sub", "mul", "div", "np.linspace", "np.logspace") else None
     except Exception as e:
         return ("fail", dict(clause="operands can be constructed", failure="construction_failed", tags=tags,
                              expected="operands", observed=f"{type(e).__name__}: {e}"))
@@ -165,6 +170,19 @@ def run_case(case):
     if odims[:len(edims)] != edims or any(d != 0 for d in odims[len(edims):]):
         return ("fail", dict(clause="result dimension is the dimension of the ideal result", failure="wrong_dimensions", tags=tags,
                              expected=[str(d) for d in edims], observed=[str(d) for d in odims]))
+    if r0.get("seqv"):
+        # np.linspace / np.logspace: every element of the result against the spec's element terms
+        ev_ = np.array([T.ev(t) for t in r0["seqv"]], dtype=float)
+        eb_ = np.array([T.ev(t) for t in r0["seqb"]], dtype=float)
+        sv_ = np.array([T.ev(t, mag=True) for t in r0["seqv"]], dtype=float)
+        sb_ = np.array([T.ev(t, mag=True) for t in r0["seqb"]], dtype=float)
+        if oval.shape != ev_.shape or not T.close(oval, ev_, rel=1e-9, scale=sv_):
+            return ("fail", dict(clause="the points run from the first to the second argument, both re-expressed in the result's units",
+                                 failure="wrong_value", tags=tags, expected=ev_.tolist(), observed=oval.tolist()))
+        if not T.close(obase, eb_, rel=1e-9, scale=sb_):
+            return ("fail", dict(clause="base-dimension values of the points", failure="wrong_value", tags=tags,
+                                 expected=eb_.tolist(), observed=np.asarray(obase).tolist()))
+        return ("ok", None)
     ebase = np.array([T.ev(r["base"]) for r in recs], dtype=float)
     sbase = np.array([T.ev(r["base"], mag=True) for r in recs], dtype=float)
     eval_ = np.array([T.ev(r["val"]) for r in recs], dtype=float)
@@ -212,7 +230,7 @@ def cases_from_records(recs, rnd, arrays=True):
     if arrays:
         groups = {}
         for r in recs:
-            if r["cls"] == "ok":
+            if r["cls"] == "ok" and not r.get("seqv"):
                 groups.setdefault(shape_key(r), []).append(r)
         for k, g in groups.items():
             if len(g) < 2:
@@ -270,11 +288,11 @@ def table_scenarios(rnd, n):
     scen = []
     used_units = set()
     while len(scen) < n:
-        op = rnd.choice(["add", "sub", "mul", "div", "mul", "div", "pow", "neg", "add"])
+        op = rnd.choice(["add", "sub", "mul", "div", "mul", "div", "pow", "neg", "add", "np.linspace", "np.logspace"])
         side, form, lit, nn = "qq", "-", [], [1, 1]
         aex = exmap() if rnd.random() < 0.93 else ([{"u": rnd.choice(dimless), "e": [1, 1]}] if rnd.random() < 0.6 else [])
         bex = []
-        if op in ("add", "sub"):
+        if op in ("add", "sub", "np.linspace", "np.logspace"):
             r = rnd.random()
             bex = same_dim_variant(aex) if r < 0.7 else (exmap() if r < 0.85 else
                                                          ([{"u": x["u"], "e": [-x["e"][0], x["e"][1]]} for x in same_dim_variant(aex)] if r < 0.93 else []))
@@ -284,11 +302,13 @@ def table_scenarios(rnd, n):
                                             ([{"u": rnd.choice(dimless), "e": [1, 1]}] if r < 0.93 else []))
         a = {"v": val(), "ex": aex}
         b = {"v": val(), "ex": bex}
-        if op in ("add", "sub", "mul", "div") and rnd.random() < 0.12:
+        if op == "np.logspace":                      # exponents of ten stay small
+            a["v"], b["v"] = [rnd.randint(-20, 20), 8], [rnd.randint(-20, 20), 8]
+        if op in ("add", "sub", "mul", "div", "np.linspace", "np.logspace") and rnd.random() < 0.12:
             if rnd.random() < 0.5:
-                side, b = "qn", {"v": val(), "ex": []}
+                side, b = "qn", {"v": b["v"], "ex": []}
             else:
-                side, a, b = "nq", {"v": val(), "ex": []}, {"v": val(), "ex": aex}
+                side, a, b = "nq", {"v": a["v"], "ex": []}, {"v": b["v"], "ex": aex}
         if op == "pow":
             side = "q"
             form, lit = rnd.choice(pow_cases)
@@ -300,7 +320,7 @@ def table_scenarios(rnd, n):
         if op == "neg":
             side, b = "q", {"v": [1, 1], "ex": []}
         # units the library cannot combine at all (two units sharing a symbol with different prefixes are fine)
-        sc = dict(op=op, side=side, num=(rnd.choice(["py", "np"]) if side in ("nq", "qn") else "-"),
+        sc = dict(op=op, side=side, num=(("py" if op.startswith("np.") else rnd.choice(["py", "np"])) if side in ("nq", "qn") else "-"),
                   form=form, lit=lit, n=nn, a=a, b=b)
         for r in a["ex"] + b["ex"]:
             used_units.add(r["u"])
